@@ -506,7 +506,11 @@ func (f *Frame) appendOp(instr *ssa.Call, cc *ssa.CallCommon, reach string, st *
 		h := f.heap(st, heapName(lf.typ))
 		dst := addrPath(fmt.Sprintf("(selem %s i)", r), lf.path)
 		src := addrPath(fmt.Sprintf("(selem %s i)", s), lf.path)
-		f.ctx.Fact(fmt.Sprintf("(forall ((i Int)) (! (=> (and (<= 0 i) (< i (slen_ %s))) (= (select %s %s) (select %s %s))) :pattern ((select %s %s))))", s, h, dst, h, src, h, dst))
+		pats := fmt.Sprintf(":pattern ((select %s %s))", h, dst)
+		if top := f.top; top != nil && top.contract != nil && top.contract.ForwardTerms {
+			pats += fmt.Sprintf(" :pattern ((select %s %s))", h, src)
+		}
+		f.ctx.Fact(fmt.Sprintf("(forall ((i Int)) (! (=> (and (<= 0 i) (< i (slen_ %s))) (= (select %s %s) (select %s %s))) %s))", s, h, dst, h, src, pats))
 		if t != "" {
 			dst2 := addrPath(fmt.Sprintf("(selem %s (+ (slen_ %s) i))", r, s), lf.path)
 			var srcv string
@@ -516,6 +520,8 @@ func (f *Frame) appendOp(instr *ssa.Call, cc *ssa.CallCommon, reach string, st *
 				srcv = fmt.Sprintf("(select %s %s)", h, addrPath(fmt.Sprintf("(selem %s i)", t), lf.path))
 			}
 			f.ctx.Fact(fmt.Sprintf("(forall ((i Int)) (! (=> (and (<= 0 i) (< i %s)) (= (select %s %s) %s)) :pattern ((select %s %s))))", tlen, h, dst2, srcv, h, dst2))
+			// ground instance for the first appended element (names the term for e-matching)
+			f.ctx.Fact(fmt.Sprintf("(=> (< 0 %s) (= (select %s %s) %s))", tlen, h, strings.ReplaceAll(dst2, " i)", " 0)"), strings.ReplaceAll(srcv, " i)", " 0)")))
 		}
 	}
 	if isByteSlice(cc.Args[0].Type()) {
